@@ -357,26 +357,7 @@ where
         let storage = self.storage;
         storage.log.load_object(r);
 
-        let value = storage.resolve_ref(r, flags, self)?;
-        // The value of an indirect object may itself be a reference, and readers follow such a value by
-        // resolving again: make sure that this ends (after at most 16 hops) before handing it out.
-        let mut next = match value {
-            Primitive::Reference(next) => Some(next),
-            _ => None
-        };
-        let mut hops = 0;
-        while let Some(n) = next {
-            hops += 1;
-            if hops > 16 {
-                bail!("chain of references starting at object {} does not end", r.id);
-            }
-            next = match storage.resolve_ref(n, ParseFlags::ANY, self) {
-                Ok(Primitive::Reference(m)) => Some(m),
-                // (a value, or an error the reader will meet itself)
-                _ => None
-            };
-        }
-        Ok(value)
+        storage.resolve_ref(r, flags, self)
     }
 
     fn get<T: Object+DataSize>(&self, r: Ref<T>) -> Result<RcRef<T>> {
